@@ -10,6 +10,7 @@ import (
 	"fmt"
 	"go/token"
 	"go/types"
+	"sort"
 	"strings"
 
 	"golang.org/x/tools/go/ssa"
@@ -456,6 +457,31 @@ func ruleEvRemap(w *World, r *Report) {
 	if realTbl == nil || eventTbl == nil || realTbl == eventTbl {
 		r.Fail(rule, w.Pos(fn.Pos()), name, "index tables", "a table for real-node positions and a separate one for event-node positions were not both found")
 		return
+	}
+	// completeness: every real node appended to the rebuilt array (also the two inlined operands of a fast operator,
+	// which a `fi` or a short-circuit jump may target) has its new position recorded in the real-node table, and every
+	// event node in the event-node table
+	{
+		recorded := map[string]bool{}
+		for _, t := range tstores {
+			recorded[t.class+"|"+t.j] = true
+		}
+		missing := map[string]string{}
+		for _, cand := range allAppends {
+			if _, seq, okc := m.chain(cand); okc {
+				for _, el := range seq {
+					if (el.class == "node" || el.class == "dbg") && !recorded[el.class+"|"+el.idx] {
+						missing[el.String()] = el.pos
+					}
+				}
+			}
+		}
+		var ms []string
+		for k := range missing {
+			ms = append(ms, k)
+		}
+		sort.Strings(ms)
+		r.Check(len(ms) == 0, rule, w.Pos(fn.Pos()), name, "every appended node has its new position recorded", "each appended real node and event node is the subject of an index-table store", fmt.Sprintf("the new position of %v is never recorded: a jump or parent link that refers to it is relabelled to position 0", ms))
 	}
 	// the relabelling loop
 	nSc, nPar := 0, 0
